@@ -122,7 +122,7 @@ Ltac solve_op Ha :=
 Lemma cstep_var_inv s m o a : invC s a -> triple a (cgen (step_var fl trk fn s m o)) invC.
 Proof.
   unfold invC. intros Ha. destruct s as [i0 i1].
-  destruct o as [t j x|t j x|t j x|t j x|t j x|t|t|t|t|t|t| |t|t k x|t|t|t|t|t|t|t| |t|t|t j x|t j x|j x|t j|t j|t k x];
+  destruct o as [t j x|t j x|t j x|t j x|t j x|t|t|t|t|t|t| |t|t k x|t|t|t|t|t|t|t| |t|t|t j x|t j x|j x|t j|t j|t k x|t j x];
     unfold step_var; cbv zeta; try (split; [reflexivity|exact Ha]);
     try destruct t; prep; timeout 60 (solve_op Ha).
 Qed.
@@ -130,7 +130,7 @@ Qed.
 Lemma cstep_fun_inv s m o a : fn = true -> invC s a -> triple a (cgen (step_fun fl trk fn s m o)) invC.
 Proof.
   unfold invC. intros Hfn Ha. pose proof (eff0 trk fn Hfn) as E0. destruct s as [i0 i1].
-  destruct o as [t j x|t j x|t j x|t j x|t j x|t|t|t|t|t|t| |t|t k x|t|t|t|t|t|t|t| |t|t|t j x|t j x|j x|t j|t j|t k x];
+  destruct o as [t j x|t j x|t j x|t j x|t j x|t|t|t|t|t|t| |t|t k x|t|t|t|t|t|t|t| |t|t|t j x|t j x|j x|t j|t j|t k x|t j x];
     unfold step_fun; cbv zeta; try (split; [reflexivity|exact Ha]);
     try destruct t; prep; timeout 60 (solve_op Ha).
 Qed.
